@@ -43,6 +43,7 @@ type Summary struct {
 	truePost   []*sumCand // for a bool result (index res): facts that hold whenever that result is true
 	post       []*sumCand
 	pre        []*sumCand   // preconditions on the parameters, proved at every call site (functions with known callers only)
+	fvPre      []*sumCand   // closures: lower bounds on the length of immutable captured slices, proved where the closure is created
 	cellShrink map[int]bool // param index -> callee never grows *param (candidate)
 }
 
@@ -118,6 +119,12 @@ func newFn(e *Engine, f *ssa.Function) *Fn {
 		for _, c := range sum.pre {
 			if c.ok {
 				s.pre = append(s.pre, c.mk(env))
+			}
+		}
+		fvEnv := callEnv{argLen: func(i int) Lin { return term(fvLen{f.FreeVars[i]}) }}
+		for _, c := range sum.fvPre {
+			if c.ok {
+				s.pre = append(s.pre, c.mk(fvEnv))
 			}
 		}
 	}
@@ -378,7 +385,20 @@ func (s *Fn) canonLoads() {
 		}
 		return idx(loads[i].u) < idx(loads[j].u)
 	})
+	for _, l := range loads {
+		if a, ok := l.k.root.(*ssa.Alloc); ok && l.k.path == "" {
+			if st, ok := writeOnceCell(a); ok {
+				sb, lb := st.Block(), l.u.Block()
+				if (sb == lb && instrIndex(st) < instrIndex(l.u)) || (sb != lb && sb.Dominates(lb)) {
+					s.loadOf[l.u] = st.Val
+				}
+			}
+		}
+	}
 	for i, l2 := range loads {
+		if _, done := s.loadOf[l2.u]; done {
+			continue
+		}
 		for j := 0; j < i; j++ {
 			l1 := loads[j]
 			if l1.k != l2.k {
@@ -425,6 +445,55 @@ func (s *Fn) canonLoads() {
 }
 
 // immutable closure cell: returns the value stored into it by the parent.
+func instrIndex(in ssa.Instruction) int {
+	for i, x := range in.Block().Instrs {
+		if x == in {
+			return i
+		}
+	}
+	return -1
+}
+
+// writeOnceCell: a local variable that lives in memory only because closures capture it, is assigned exactly once
+// (by the owning function, never through a closure) and whose address goes nowhere else: every load the store
+// dominates yields the stored value.
+func writeOnceCell(a *ssa.Alloc) (*ssa.Store, bool) {
+	var st *ssa.Store
+	captured := false
+	for _, r := range *a.Referrers() {
+		switch x := r.(type) {
+		case *ssa.Store:
+			if x.Addr != ssa.Value(a) || st != nil {
+				return nil, false
+			}
+			st = x
+		case *ssa.MakeClosure:
+			captured = true
+			clo, _ := x.Fn.(*ssa.Function)
+			if clo == nil {
+				return nil, false
+			}
+			for i, b := range x.Bindings {
+				if b != ssa.Value(a) {
+					continue
+				}
+				fv := clo.FreeVars[i]
+				for _, r2 := range *fv.Referrers() {
+					switch r2.(type) {
+					case *ssa.UnOp, *ssa.DebugRef:
+					default:
+						return nil, false // stored through, or handed on
+					}
+				}
+			}
+		case *ssa.UnOp, *ssa.DebugRef:
+		default:
+			return nil, false
+		}
+	}
+	return st, st != nil && captured
+}
+
 func immutableCell(fv *ssa.FreeVar) (ssa.Value, bool) {
 	g := fv.Parent()
 	for _, r := range *fv.Referrers() {
@@ -467,6 +536,10 @@ func immutableCell(fv *ssa.FreeVar) (ssa.Value, bool) {
 					if x.Addr == a {
 						stores++
 						val = x.Val
+						// the store happens before the closure exists
+						if !(x.Block() == mc.Block() && instrIndex(x) < instrIndex(mc)) && !(x.Block() != mc.Block() && x.Block().Dominates(mc.Block())) {
+							return nil, false
+						}
 					} else {
 						return nil, false
 					}
